@@ -34,7 +34,8 @@ def main():
     try:
         drv = common.standard_build(chk, mod.GENS, mod.TARGETS, mod.THEOREMS, mod.PROP_FILES, getattr(mod, 'SRC', None))
         if a.tier == 'thorough':
-            common.leanchecker(chk, list(mod.TARGETS) + ([mod.SRC['module']] if getattr(mod, 'SRC', None) else []))
+            _src = getattr(mod, 'SRC', None)
+            common.leanchecker(chk, list(mod.TARGETS) + [x['module'] for x in ([] if not _src else _src if isinstance(_src, (list, tuple)) else [_src])])
         if drv is not None:
             try:
                 mod.correspondence(chk, drv)
